@@ -1,13 +1,14 @@
-import TWV.Driver.Dispatch
+import TWV.Driver.Session
 
-partial def loop (hin : IO.FS.Stream) (hout : IO.FS.Stream) : IO Unit := do
+partial def loop (hin : IO.FS.Stream) (hout : IO.FS.Stream) (st : TWV.Driver.DState) : IO Unit := do
   let line ← hin.getLine
   if line.isEmpty then return ()
-  hout.putStrLn (TWV.Driver.dispatch line)
-  loop hin hout
+  let (st', out) := TWV.Driver.dispatchS st line
+  hout.putStrLn out
+  loop hin hout st'
 
 def main : IO Unit := do
   let hin ← IO.getStdin
   let hout ← IO.getStdout
-  loop hin hout
+  loop hin hout {}
   hout.flush
